@@ -37,12 +37,27 @@ func extractValidationConstraints(field *protogen.Field, schema *base.Schema) {
 	switch field.Desc.Kind() {
 	case protoreflect.StringKind:
 		applyStringConstraints(fieldConstraints, schema)
-	case protoreflect.Int32Kind, protoreflect.Sint32Kind, protoreflect.Sfixed32Kind,
-		protoreflect.Uint32Kind, protoreflect.Fixed32Kind:
+	case protoreflect.Int32Kind:
 		applyInt32Constraints(fieldConstraints, schema)
-	case protoreflect.Int64Kind, protoreflect.Sint64Kind, protoreflect.Sfixed64Kind,
-		protoreflect.Uint64Kind, protoreflect.Fixed64Kind:
+	case protoreflect.Int64Kind:
 		applyInt64Constraints(fieldConstraints, schema)
+	// The other integer kinds carry their rules under their own FieldRules member
+	case protoreflect.Sint32Kind:
+		applyIntegerRules[int32](fieldConstraints.GetSint32(), fieldConstraints.GetSint32() != nil, schema)
+	case protoreflect.Sfixed32Kind:
+		applyIntegerRules[int32](fieldConstraints.GetSfixed32(), fieldConstraints.GetSfixed32() != nil, schema)
+	case protoreflect.Uint32Kind:
+		applyIntegerRules[uint32](fieldConstraints.GetUint32(), fieldConstraints.GetUint32() != nil, schema)
+	case protoreflect.Fixed32Kind:
+		applyIntegerRules[uint32](fieldConstraints.GetFixed32(), fieldConstraints.GetFixed32() != nil, schema)
+	case protoreflect.Sint64Kind:
+		applyIntegerRules[int64](fieldConstraints.GetSint64(), fieldConstraints.GetSint64() != nil, schema)
+	case protoreflect.Sfixed64Kind:
+		applyIntegerRules[int64](fieldConstraints.GetSfixed64(), fieldConstraints.GetSfixed64() != nil, schema)
+	case protoreflect.Uint64Kind:
+		applyIntegerRules[uint64](fieldConstraints.GetUint64(), fieldConstraints.GetUint64() != nil, schema)
+	case protoreflect.Fixed64Kind:
+		applyIntegerRules[uint64](fieldConstraints.GetFixed64(), fieldConstraints.GetFixed64() != nil, schema)
 	case protoreflect.FloatKind:
 		applyFloatConstraints(fieldConstraints, schema)
 	case protoreflect.DoubleKind:
@@ -184,6 +199,53 @@ func applyInt32Constraints(constraints *validate.FieldRules, schema *base.Schema
 				Kind:  yaml.ScalarNode,
 				Value: strconv.Itoa(int(value)),
 			})
+		}
+	}
+}
+
+// integerRules is the accessor set shared by the generated buf.validate rule messages of
+// the integer kinds (SInt32Rules, UInt32Rules, Fixed64Rules, ...).
+type integerRules[T int32 | uint32 | int64 | uint64] interface {
+	HasGte() bool
+	GetGte() T
+	HasGt() bool
+	GetGt() T
+	HasLte() bool
+	GetLte() T
+	HasLt() bool
+	GetLt() T
+	HasConst() bool
+	GetConst() T
+	GetIn() []T
+}
+
+// applyIntegerRules publishes gte/gt/lte/lt/const/in of an integer rule message, like
+// applyInt32Constraints does for int32 fields.
+func applyIntegerRules[T int32 | uint32 | int64 | uint64](rules integerRules[T], present bool, schema *base.Schema) {
+	if !present {
+		return
+	}
+	if rules.HasGte() {
+		v := float64(rules.GetGte())
+		schema.Minimum = &v
+	}
+	if rules.HasGt() {
+		schema.ExclusiveMinimum = &base.DynamicValue[bool, float64]{N: 1, B: float64(rules.GetGt())}
+	}
+	if rules.HasLte() {
+		v := float64(rules.GetLte())
+		schema.Maximum = &v
+	}
+	if rules.HasLt() {
+		schema.ExclusiveMaximum = &base.DynamicValue[bool, float64]{N: 1, B: float64(rules.GetLt())}
+	}
+	if rules.HasConst() {
+		schema.Const = &yaml.Node{Kind: yaml.ScalarNode, Value: fmt.Sprint(rules.GetConst())}
+	}
+	if in := rules.GetIn(); len(in) > 0 {
+		schema.Enum = make([]*yaml.Node, 0, len(in))
+		for _, value := range in {
+			schema.Enum = append(schema.Enum, &yaml.Node{Kind: yaml.ScalarNode, Value: fmt.Sprint(value)})
 		}
 	}
 }
